@@ -342,22 +342,43 @@ def run_model(lines, feats, timeout=1800):
 
 
 def run_impl(lines, feats, release=False, timeout=1800, extra_features=()):
-    """The harness catches unwinding panics itself; a shard that dies (abort, stack overflow, signal)
-    is re-run line by line to pin the input that kills the process."""
+    """The harness catches unwinding panics itself; a batch in which the process dies (abort, stack overflow, signal) loses
+    its buffered answers, so the unanswered lines are re-run by bisection: halves that complete deliver their answers, a
+    half that dies is split again, down to the single line that kills the process (`abort rc=..` / `hang`).  Every line
+    ends up with an answer of its own, so a replay always names an input that fails by itself."""
+    from concurrent.futures import ThreadPoolExecutor
+
     exe = harness_path(list(feats) + list(extra_features), release)
     out = _run_shards([exe], lines, NPROC, timeout)
-    if "__errors__" in out:
-        missing = [l for l in lines if l.split("\t", 1)[0] not in out]
-        for l in missing[:2000]:
-            try:
-                p = subprocess.run([exe], input=l + "\n", capture_output=True, text=True, timeout=60, env=ENV)
-                got = p.stdout.strip().split("\t", 1)
-                if p.returncode == 0 and len(got) == 2:
-                    out[got[0]] = got[1]
-                else:
-                    out[l.split("\t", 1)[0]] = f"abort rc={p.returncode}"
-            except subprocess.TimeoutExpired:
-                out[l.split("\t", 1)[0]] = "hang"
+    if "__errors__" not in out:
+        return out
+    missing = [l for l in lines if l.split("\t", 1)[0] not in out]
+
+    def batch(ls):
+        """answers of the lines of ls, bisecting where the process dies"""
+        try:
+            p = subprocess.run([exe], input="\n".join(ls) + "\n", capture_output=True, text=True, timeout=60 + len(ls) // 200, env=ENV)
+            rc, so = p.returncode, p.stdout
+        except subprocess.TimeoutExpired:
+            rc, so = 124, ""
+        res = {}
+        if rc == 0:
+            for line in so.splitlines():
+                i = line.find("\t")
+                if i > 0:
+                    res[line[:i]] = line[i + 1 :]
+            return res
+        if len(ls) == 1:
+            return {ls[0].split("\t", 1)[0]: ("hang" if rc == 124 else f"abort rc={rc}")}
+        mid = len(ls) // 2
+        res.update(batch(ls[:mid]))
+        res.update(batch(ls[mid:]))
+        return res
+
+    chunks = [missing[i::NPROC] for i in range(NPROC)]
+    with ThreadPoolExecutor(max_workers=NPROC) as ex:
+        for res in ex.map(batch, [c for c in chunks if c]):
+            out.update(res)
     return out
 
 
